@@ -1,7 +1,7 @@
 \* X03 generator / oracle run.  The driver rewrites the two CONSTANTS lines per part (harness/drivers/x03.py).
 SPECIFICATION Spec
 CONSTANTS
-  Part = {"scalar", "lists", "explicit", "for", "tpl-a", "tpl-b"}
+  Part = {"scalar", "lists", "explicit", "for", "registry", "tpl-a", "tpl-b"}
   Size = "quick"
 INVARIANT Emit
 INVARIANT Totality
@@ -12,4 +12,5 @@ INVARIANT VersionsAgree
 INVARIANT CrossOrder
 INVARIANT SeedOrder
 INVARIANT Fallback
+INVARIANT FirstWins
 CHECK_DEADLOCK FALSE
